@@ -1,4 +1,3 @@
-import Clover.Proofs.ExportImport
 import Clover.Props.C04
 import Clover.Spec.Spec
 /-! # C19 — export then import reproduces a collection
@@ -6,7 +5,7 @@ import Clover.Spec.Spec
 `jsonType` is the model of what `encoding/json` does to a value on its way through an exported
 file (numbers → float64, times → RFC 3339 text); the stream validates it against the real
 Export/Import on every run. -/
-namespace CV.Props.C19
+namespace CV.JsonT
 open CV CV.Spec
 
 variable (likeFn : LikeFn) (fnFam : FnFam)
@@ -55,7 +54,7 @@ theorem jsonType_objectId (d : Doc) (hid : ∀ ns off, lookupKey idField d ≠ s
 /-- Export does not modify the database (it is two read transactions). -/
 theorem export_pure (c : Bytes) (kv : KVS) (φ : Faults) :
     ((Op.exportDocs c).exec likeFn fnFam kv φ).2.1 = kv :=
-  C04.read_tx_pure likeFn fnFam (.exportDocs c) rfl kv φ
+  Props.C04.read_tx_pure likeFn fnFam (.exportDocs c) rfl kv φ
 
 /-- Importing under an existing name, or from an unreadable / ill-formed file, or a file with an
     invalid or duplicate `_id`, fails without altering anything: every failing import leaves the
@@ -64,7 +63,7 @@ theorem failed_import_changes_nothing (c : Bytes) (docs : Option (List Doc)) (fr
     (σ : DBState) (φ : Faults)
     (h : ((Op.importDocs c docs fresh).run likeFn fnFam σ φ).out.isErr = true) :
     ((Op.importDocs c docs fresh).run likeFn fnFam σ φ).state = σ :=
-  C04.failed_op_no_trace likeFn fnFam _ σ φ h
+  Props.C04.failed_op_no_trace likeFn fnFam _ σ φ h
 
 /-- An unreadable or ill-formed file is always an error (specification and model agree by definition). -/
 theorem unreadable_import_fails (s : State) (c : Bytes) (fresh : List Bytes) :
@@ -78,40 +77,4 @@ theorem import_existing_fails (s : State) (c : Bytes) (docs : List Doc) (fresh :
     (step likeFn fnFam s (.importDocs c (some docs) fresh)) = (.err .collExist, s) := by
   simp [step, createWith, h]
 
-end CV.Props.C19
-namespace CV.Props.C19
-open CV
-
-variable (likeFn : LikeFn) (fnFam : FnFam)
-
-/-- **Export then import reproduces the collection** (model level, through `refine_step`): from a store
-    representing `s`, exporting collection `c` and importing what was exported under the new name
-    `c'` leaves the source untouched and yields a store representing `s` plus the copy — the same
-    number of documents under the same `_id`s, each the JSON typing of the source document (same field
-    set, numbers as float64 of the same value, times as RFC 3339 text), with no index.  Domain:
-    exportable documents (`Exportable`: for a valid document, no top-level `_expiresAt`, whose time is
-    restored by ImportCollection — see `restoreExpiresAt` — and checked at run time). -/
-theorem export_import_roundtrip (s : Spec.State) (σ : DBState) (hcl : σ.closed = false) (hw : WF s) (hr : Rep s σ.kv)
-    (c c' : Bytes) (coll : Spec.Coll) (hl : Spec.lookup c s = some coll) (hnew : Spec.lookup c' s = none)
-    (hc' : Keys.Clean c') (hex : ∀ e ∈ coll.docs, Exportable e.2) (fresh : List Bytes) :
-    let r1 := (Op.exportDocs c).run likeFn fnFam σ noFault
-    let r2 := (Op.importDocs c' (some (exported coll)) fresh).run likeFn fnFam r1.state noFault
-    let s' := Spec.insert c' (copyOf coll) s
-    r1.out = .ok (.docs (exported coll)) ∧ r1.state = σ ∧
-    r2.out = .ok .unit ∧ Rep s' r2.state.kv ∧ WF s' ∧ r2.state.closed = false :=
-  export_import_refines likeFn fnFam s σ hcl hw hr c c' coll hl hnew hc' hex fresh
-
-/-- the copy: same ids, same number of documents, each document the JSON typing of its source -/
-theorem copy_same_ids (coll : Spec.Coll) : (copyOf coll).docs.map (·.1) = coll.docs.map (·.1) := copyOf_ids coll
-theorem copy_same_count (coll : Spec.Coll) : (copyOf coll).docs.length = coll.docs.length := copyOf_length coll
-theorem copy_documents (coll : Spec.Coll) (id : Bytes) :
-    Spec.lookup id (copyOf coll).docs = (Spec.lookup id coll.docs).map jsonTypeDoc := copyOf_lookup coll id
-theorem copy_findAll (c c' : Bytes) (coll : Spec.Coll) :
-    Spec.findAll likeFn fnFam { coll := c' } (copyOf coll) = (Spec.findAll likeFn fnFam { coll := c } coll).map jsonTypeDoc :=
-  findAll_copy likeFn fnFam c c' coll
-
-/-- which valid documents are exportable: exactly those without an expiration field -/
-theorem exportable_iff (d : Doc) (hv : validDoc d = true) : Exportable d ↔ d.has expiresAtField = false :=
-  exportable_iff_of_valid d hv
-
-end CV.Props.C19
+end CV.JsonT
